@@ -1,18 +1,28 @@
 #!/bin/sh
-# usage: seedmatrix.sh [ids...]   runs each confirmed seed against the quick check of its property
-# (and prints one line per seed: DETECTED / missed / patch-failed), never touching /repo.
+# usage: seedmatrix.sh [-j N] [ids...]   runs each confirmed seed against the quick check of its
+# property in a scratch copy (never touching /repo) and prints one line per seed:
+# DETECTED <obligation> / missed / patch-failed.  This is also the must-fail self-test of the
+# machinery: run it after every engine or contract change.
 cd /verif
+jobs=1
+if [ "$1" = "-j" ]; then jobs=$2; shift 2; fi
 ids="$@"
 [ -z "$ids" ] && ids=$(ls seeded)
-for id in $ids; do
+one() {
+  id=$1
   prop=$(echo $id | cut -d- -f1)
-  if ! grep -q "\"property_id\": \"$prop\"" MANIFEST.json; then echo "$id unclaimed"; continue; fi
+  if ! grep -q "\"property_id\": \"$prop\"" MANIFEST.json; then echo "$id unclaimed"; return; fi
   out=$(tools/runseed.sh /verif/seeded/$id/patch.diff $prop 2>&1)
-  if echo "$out" | grep -q "PATCH-FAILED"; then echo "$id patch-failed"; continue; fi
+  if echo "$out" | grep -q "PATCH-FAILED"; then echo "$id patch-failed"; return; fi
   v=$(echo "$out" | grep -c "^VIOLATION")
   if [ "$v" -gt 0 ]; then
     echo "$id DETECTED $(echo "$out" | grep "^VIOLATION" | head -1 | sed 's/.*obligation=//' | cut -c1-120)"
   else
     echo "$id missed"
   fi
-done
+}
+if [ "$jobs" -gt 1 ]; then
+  for id in $ids; do echo $id; done | xargs -P $jobs -I{} sh -c '/verif/tools/seedmatrix.sh {}'
+else
+  for id in $ids; do one $id; done
+fi
